@@ -4,6 +4,8 @@ from vmon import gen
 from vmon.checks.common import obs, fail, both_views, random_prefix, apply_prefix
 
 SPLIT_WAITS = "seq"   # worker: every fifth case is built from relative messages with rests split into adjacent waits
+DEGEN = "seq"    # worker: every 37th case becomes a degenerate shape (gen.degenerate)
+DRUMS = "seq"    # worker: every eleventh case is moved onto channel 9 / 15 (gen.relabel_channels)
 SCALE = True   # worker: every fortieth case is blown up by scale_case below
 PROP = "C14"
 ALSO = ("C20",)  # Key.transpose_key's contract speaks for C20; a key that becomes undefined is a C14 violation too
@@ -30,6 +32,16 @@ def scale_case(case, i):
     sp["notes"] = gen.big_notes(i, chans=(0, 1), pitches=(22, 40, 64, 90, 107), lmin=1, lmax=40, gap=(0, 30))
     sp.pop("pad", None)
     case["prefix"] = []
+
+def degen_case(case, i):
+    if case["bar"]:
+        # a bar's worth of material: the driver wraps the sequence in a 4/4 Bar, which (rightly) rejects anything longer
+        sp = case["seq"]
+        sp["notes"] = [[c, p, on % 90, min(ln, 96 - on % 90), v] for (c, p, on, ln, v) in sp["notes"]]
+        sp["extra"] = [e for e in sp["extra"] if e[0] in ("cc", "ks") and e[1] <= 96]
+        if sp.get("pad") and sp["pad"] > 96:
+            sp["pad"] = 96
+
 
 def make_case(rng, i, tier):
     zone = rng.choice(["low", "high", "mid", "both"])
